@@ -7,5 +7,6 @@ CONSTANTS
   MaxLen = 2
   Waits <- W00
   Groups <- G2
+  SampledGroups = {}
 PROPERTIES Completes
 CHECK_DEADLOCK FALSE
